@@ -250,6 +250,12 @@ def plan(tier, seed):
         if sp:
             j['spelling'] = sp
         jobs.append(j)
+    # an explicitly empty boolean-attribute configuration switches the boolean treatment off
+    battr = {'tag': 'input', 'indent': 2, 'static': [['type', 'checkbox']],
+             'attributes': [['checked', py("rec('a', av)")], ['disabled', py("rec('b', bv)")]], 'children': None}
+    for cfgv in ([], ['disabled']):
+        jobs.append({'prog': wrap_root(battr), 'vars': [['av', 'cls', 4], ['bv', 'cls', 2]],
+                     'label': 'boolean-configuration:%s' % (cfgv,), 'options': {'boolean_attributes': cfgv}})
     for kids, vars_, label in restore_programs():
         jobs.append({'prog': {'tag': 'div', 'children': ['A'] + kids + ['B'], 'close_indent': 0}, 'vars': vars_,
                      'label': label})
